@@ -52,7 +52,7 @@ for _pid, _why in [
 ]:
     na(_pid, _why)
 
-prop("C02", ["sql_prec", "static_eval", "operator_tpl"],
+prop("C02", ["sql_prec", "static_eval", "operator_tpl", "rel_names"],
      not_covered="evaluation inside the database; dialect templates beyond the strengths they declare; sites that build SQL operands "
                  "without translate_operand (process_concat, process_array_in, try_into_between) are not yet under contract")
 claim("C02",
@@ -157,15 +157,17 @@ claim("C10",
       "HashSet<Ident> is a shim with a ghost set view; lookup_in, resolve_ident_wildcard, resolve_ident_fallback, ambiguous_error, expr_of_func are "
       "external; the drain loop over named parameters is replaced by its contract (stated in the evidence).")
 
-prop("C09", ["ident_quote", "ids_names"],
+prop("C09", ["ident_quote", "ids_names", "rel_names"],
      not_covered="content of the identifier regex and of the keyword tables; freshness of generated names against user names that are not registered yet; "
-                 "assign_names / RelVarNameAssigner loops")
+                 "the order in which assign_names visits the declarations (a user table named like a generated name is only protected if it is visited first)")
 claim("C09",
       "PARTIAL. Proved on the real code: translate_ident_part never changes the identifier text, emits it bare only if it is simple AND not a keyword "
       "(case-insensitively, general + dialect list) AND the dialect quotes conditionally, otherwise with the dialect's quote character (IQ1-3); "
       "is_keyword is exactly membership of the upper-cased text in the keyword sets (IK1, DK1); ids are handed out strictly increasing and above every "
       "loaded id (IG1-3, SK1); names of one generator are pairwise distinct (NG1); at a pipeline split a re-declared column gets a name different from "
-      "every name given at that split and the name is recorded (AS1a-c). NOT proved: content of regex / keyword tables, capture of not-yet-registered "
+      "every name given at that split and the name is recorded (AS1a-c); every CTE gets a name different from the names of all CTEs named before it and every "
+      "relation instance of a SELECT an alias different from those given before in that SELECT, while a name / alias that is present and unused is kept - the "
+      "user's table keeps its name (rel_names AN1-4, RN1-4; partial correctness: termination of the two regenerate-until-unused loops is not proved). NOT proved: content of regex / keyword tables, capture of not-yet-registered "
       "user names.",
       "regex, HashSet, OnceLock tables, dyn DialectHandler, sqlparser Ident constructors, format! are shims by contract.")
 
@@ -200,12 +202,12 @@ claim("C13",
 
 def _safety(name):
     lab = name.split(".", 1)[1]
-    return lab.endswith(".safety") or lab.endswith(".overflow") or lab.endswith(".div0") or lab.endswith(".decreases") or lab.endswith(".unreachable") \
+    return lab.endswith(".safety") or lab.endswith(".overflow") or lab.endswith(".div0") or lab.endswith(".decreases") or lab.endswith(".unreachable") or lab.endswith(".unwrap") or lab.endswith(".loop_exit") \
         or lab in ("SU2", "TR3s", "TR3e", "TR3o", "SB1", "SB2", "TS0", "WF1b")
 
 
 _ALL_UNITS = ["take_range", "sort_take", "split_order", "window_frame", "dialect_select", "ident_quote", "ids_names", "toposort", "rq_tables",
-              "select_shape", "span_units", "sql_prec", "prql_prec", "literals", "set_ops", "desugar", "resolve_guards", "lex_strings", "limit_clause", "static_eval", "operator_tpl"]
+              "select_shape", "span_units", "sql_prec", "prql_prec", "literals", "set_ops", "desugar", "resolve_guards", "lex_strings", "limit_clause", "static_eval", "operator_tpl", "rel_names"]
 prop("C12", _ALL_UNITS, select={u: _safety for u in _ALL_UNITS},
      not_covered="every function that is not under contract (~150 unwrap/expect sites, todo!() in type_intersection, panic!(cannot find cid) in lookup_cid), "
                  "recursion depth, chumsky, time bounds")
@@ -231,7 +233,7 @@ claim("C08",
       "content of escaped strings beyond one escape.",
       "sqlparser's Display (quote doubling) is trusted; str::parse and format! are uninterpreted; date/time/interval arms are not under contract.")
 
-prop("C07", ["set_ops", "limit_clause", "literals", "sql_prec"], select={"literals": lambda n: n.split(".", 1)[1] in ("EI1", "expr_of_i64.safety"), "sql_prec": lambda n: n.split(".", 1)[1].startswith("NP4.std_neg") or n.endswith(".safety")},
+prop("C07", ["set_ops", "limit_clause", "literals", "rel_names", "sql_prec"], select={"literals": lambda n: n.split(".", 1)[1] in ("EI1", "expr_of_i64.safety"), "sql_prec": lambda n: n.split(".", 1)[1].startswith("NP4.std_neg") or n.endswith(".safety")},
      not_covered="scope of every table / column reference, per-dialect grammar, empty projections, relation alias uniqueness (assign_names), "
                  "which dialects besides SQLite have no bare OFFSET (MySQL, BigQuery: the handler table is assumed, not executable here)")
 claim("C07",
@@ -240,7 +242,7 @@ claim("C07",
       "(WR1, loop invariant, any number of CTEs) and carries every CTE (WR2); the set quantifier is ALL iff duplicates are kept and DISTINCT is written "
       "only where the dialect accepts it (SQ1-2); the LIMIT / OFFSET / FETCH clause is one the dialect's grammar has: FETCH never without OFFSET and ORDER BY and "
       "never together with LIMIT (LC1, LC1f), a dialect without bare OFFSET gets a LIMIT meaning `no limit` whenever it gets an OFFSET (LC3, LC4), row counts are "
-      "written as plain decimal digits (literals EI1); nested unary minus never produces the comment token `--` (sql_prec NP4.std_neg rows). The sentence "
+      "written as plain decimal digits (literals EI1); CTE names and relation aliases are unique in their scope (rel_names AN1-2, RN1-2); nested unary minus never produces the comment token `--` (sql_prec NP4.std_neg rows). The sentence "
       "'every accepted program compiles to valid SQL of the dialect' is NOT what is proved.",
       "dialect flags and translate_cte are parameters / externals of the slices; the rest of except(), translate_query and "
       "translate_set_ops_pipeline is dropped.")
